@@ -158,7 +158,11 @@ MISSING: `removetree`, `movedir`, `copydir`.  On a MultiFS they are the base-cla
 (`rmWalk`, `structLoop`, `filesLoop`); the missing step is that this walk equals the reference's tree-level
 merge (`Ref.mergeEnts`) — the statement `FsModel.Mem` and `FsModel.Os` take as their modelling decision for the
 same base-class code.  Those three are tied to the real code by the exact correspondence (`multifs.step` on the
-`multi` backend, incl. entry order and mid-way failures) and checked on a concrete tree by `decide` below. -/
+`multi` backend, incl. entry order and mid-way failures) and checked on a concrete tree by `decide` below.
+NOW PROVED: `FsProofs/BaseWalkLaws.multi_single_write_layer_refines` is the statement for EVERY operation, the
+three walkers included (the walk over the MultiFS's own calls computes the reference's tree-level result —
+up to the order of entries for `copydir` / `movedir`, under the side conditions listed there); it uses this
+theorem for the 22 operations that do not walk. -/
 theorem multi_single_write_layer_refines_partial (fuel : Nat) (F : FS State) (hF : RefinesRef F)
     (s : MState State) (l : Layer State) (hl : s.layers = [l]) (hw : s.writeIdx = some l.idx)
     (hc : s.closed = false) (G : Good l.st) (op : Op) (hop : op ≠ .close) (hwk : walker op = false) :
